@@ -975,17 +975,22 @@ impl Work<Context, WorkId, Error> for StaticMetadataWork {
                 // TODO: Also support localised names, and names inferred from axis labels
                 // (also used to build STAT table)
                 NamedInstance {
-                    name: inst.stylename.clone().unwrap_or_else(|| {
-                        match inst
-                            .name
-                            .as_ref()
-                            .unwrap()
-                            .strip_prefix(family_prefix.as_str())
-                        {
-                            Some(tail) => tail.to_string(),
-                            None => inst.name.clone().unwrap(),
-                        }
-                    }),
+                    // an empty stylename is no stylename, as in fonttools
+                    name: inst
+                        .stylename
+                        .clone()
+                        .filter(|s| !s.is_empty())
+                        .unwrap_or_else(|| {
+                            match inst
+                                .name
+                                .as_ref()
+                                .unwrap()
+                                .strip_prefix(family_prefix.as_str())
+                            {
+                                Some(tail) => tail.to_string(),
+                                None => inst.name.clone().unwrap(),
+                            }
+                        }),
                     postscript_name: inst.postscriptfontname.clone(),
                     location: to_design_location(&tags_by_name, &inst.location)
                         .to_user(&axes)
